@@ -625,7 +625,11 @@ def _split_code_lines(ast_nodes, text):
                     if (endpos.lineno > last_node_lineno and
                         _is_comment_or_blank(text[endpos.lineno])):
                         assert startpos.lineno < endpos.lineno
-                        if not text[endpos.lineno-1].endswith("\\"):
+                        # (A backslash that ends a comment line does not
+                        # continue anything; same test as in the loop below.)
+                        if (not text[endpos.lineno-1].endswith("\\") or
+                            (endpos.lineno-1 > last_node_lineno and
+                             _is_comment_or_blank(text[endpos.lineno-1]))):
                             endpos = FilePos(endpos.lineno,1)
                 else:
                     # We're not at end of file, yet the next node starts in
